@@ -324,14 +324,15 @@ def _shard_entry(args):
 # ---------------------------------------------------------------- driver
 
 
-SWEEP_ENV_KEYS = ("PYTHONOPTIMIZE", "PYTHONHASHSEED", "PANDAS_COPY_ON_WRITE", "VERIF_LOGGING")
+SWEEP_ENV_KEYS = ("PYTHONOPTIMIZE", "PYTHONHASHSEED", "PANDAS_COPY_ON_WRITE", "VERIF_LOGGING", "VERIF_WEAK_HASH")
 
 
 def sweep_env(seed):
     """the other process configuration every check is also run under: assert statements stripped (python -O), another
     string-hash seed (set / dict iteration order of strings), pandas' copy-on-write mode switched on by its documented
-    environment variable, and the package's logger at DEBUG level (into a sink) instead of silenced"""
-    return {"PYTHONOPTIMIZE": "1", "PYTHONHASHSEED": str(1 + (seed * 7919) % 4000), "PANDAS_COPY_ON_WRITE": "1", "VERIF_LOGGING": "debug"}
+    environment variable, the package's logger at DEBUG level (into a sink) instead of silenced, and collision injection: the
+    non-cryptographic hash functions keep three bits while the tree under test calls them (vf.tree._install_weak_hashes)"""
+    return {"PYTHONOPTIMIZE": "1", "PYTHONHASHSEED": str(1 + (seed * 7919) % 4000), "PANDAS_COPY_ON_WRITE": "1", "VERIF_LOGGING": "debug", "VERIF_WEAK_HASH": "1"}
 
 
 def sweep_budget(budget):
@@ -502,7 +503,7 @@ def main_run(mod, tier, seed, replay=None):
         path = write_replay(mod.ID, case, sub, msg, detail, env=env)
         violations = 1
         rc = 1
-        lines.append("violation [%s] (under python -O, PYTHONHASHSEED=%s, PANDAS_COPY_ON_WRITE=1): %s" % (sub, env["PYTHONHASHSEED"], msg))
+        lines.append("violation [%s] (under python -O, PYTHONHASHSEED=%s, PANDAS_COPY_ON_WRITE=1, DEBUG logging, weak hashes): %s" % (sub, env["PYTHONHASHSEED"], msg))
         lines.append("VIOLATION property=%s replay=%s" % (mod.ID, path))
     wall = time.time() - t0
     write_evidence(mod, tier, seed, total, wall, violations, exhaustive, n_replays, budget)
